@@ -397,8 +397,18 @@ func TestVerifC06(t *testing.T) {
 				}
 				return o
 			}
+			// ten failed resumes from one address: further resumes from it are refused (also with a valid id), from
+			// another address the session resumes
+			thr := []hdOp{{K: "connect", C: 1, Addr: 1}, {K: "hello", C: 1, B: 0, U: 1}, hdJoinOp(1, 1, 1), {K: "drop", C: 1}, {K: "connect", C: 2, Addr: 7}}
+			for i := 0; i < 11; i++ {
+				thr = append(thr, hdOp{K: "hello", C: 2, Ht: "resume", Id: &hdIdRef{T: "other", O: i % 4}})
+			}
+			thr = append(thr, hdOp{K: "hello", C: 2, Ht: "resume", Id: &hdIdRef{T: "priv", C: 1}},
+				hdOp{K: "hello", C: 2, Ht: "resume", Id: &hdIdRef{T: "pub", C: 1}},
+				hdOp{K: "connect", C: 3, Addr: 8}, hdOp{K: "hello", C: 3, Ht: "resume", Id: &hdIdRef{T: "priv", C: 1}},
+				hdOp{K: "hello", C: 2, Ht: "resume", Id: &hdIdRef{T: "priv", C: 1}})
 			return []*hdCase{{Id: 0, Mode: 1, Ops: ops}, {Id: 1, Mode: 1, Ops: gone}, {Id: 2, Mode: 1, Ops: chat}, {Id: 3, Mode: 1, Ops: lost},
-				{Id: 4, Mode: 1, Ops: dis}, {Id: 5, Mode: 1, Ops: kick}, {Id: 6, Mode: 1, Ops: w(false)}, {Id: 7, Mode: 1, Ops: w(true)}}
+				{Id: 4, Mode: 1, Ops: dis}, {Id: 5, Mode: 1, Ops: kick}, {Id: 6, Mode: 1, Ops: w(false)}, {Id: 7, Mode: 1, Ops: w(true)}, {Id: 8, Mode: 1, Ops: thr}}
 		}})
 }
 
